@@ -102,6 +102,9 @@ MUTANTS = [
      "        for comp_id in sorted(comp_identifiers):\n            stage, name = comp_id", "        for comp_id in comp_identifiers:\n            stage, name = comp_id"),
     ('c14-listing-not-restored-on-restart-unfixed', 'C14', 'c14rt', 128, 'python/experiment/runtime/output.py',
      "        self._restore_recorded_status()\n", "        pass\n"),
+    ('c05-location-ignores-placeholders-unfixed', 'C05', 'c05', 60, 'python/experiment/model/graph.py',
+     "            if producer_identifier in workflowGraph._placeholders:\n                producer_identifier = workflowGraph._placeholders[producer_identifier]['latest']\n",
+     ""),
     ('c14-instance-description-written-in-place', 'C14', 'c14rt', 192, 'python/experiment/model/conf.py',
      "        temp_file = '%s.%s.tmp' % (instance_file, uuid.uuid4())\n", "        temp_file = instance_file\n"),
     ('c14-status-written-in-place', 'C14', 'c14rt', 192, 'python/experiment/model/data.py',
